@@ -266,7 +266,7 @@ def main():
         wall_s=round(wall, 2),
         violations=(len(unexplained) if unexplained else (1 if rc else 0)),
     )
-    common.write_json(os.path.join(VERIF, "evidence", pid + ".json"), ev)
+    common.write_json(os.path.join(os.environ.get("VERIF_EVIDENCE_DIR") or os.path.join(VERIF, "evidence"), pid + ".json"), ev)
     print("%s %s: obligations %d/%d, cases %d (%d distinct non-trivial), mismatches %d, oracle failures %d, %.1fs -> %s"
           % (pid, tier, discharged, obligations, run.evaluations, len(run.nontrivial), sum(v for k, v in run.dist.items() if k.startswith("mismatch:")),
              sum(v for k, v in run.dist.items() if k.startswith("oracle-fail:")), wall, "OK" if rc == 0 else "VIOLATION"))
